@@ -107,16 +107,19 @@ setup(
 
 
 def canonical_seed(codemod):
-    for s in progspace.load_seeds():
-        if s.codemod == codemod and s.kind == "trigger" and s.batchable and s.compiles:
+    seeds = [s for s in progspace.load_seeds() if s.codemod == codemod and s.kind == "trigger" and s.batchable]
+    for s in seeds:
+        if s.compiles:
             return s
+    if seeds:
+        return seeds[0]  # codemods whose triggers only pass the parser (e.g. a module-level `global`)
     raise core.HarnessError(f"no canonical seed for {codemod}")
 
 
 def _concat(a: str, b: str) -> bytes | None:
     t = (a if a.endswith("\n") else a + "\n") + "\n" + b
     data = t.encode()
-    return data if progspace.py_ok(data, True) else None
+    return data if progspace.py_ok(data, True) or progspace.py_ok(data, False) else None
 
 
 def project_for(k1, k2):
